@@ -4,7 +4,7 @@ ENGINE = 'verus'
 CLASS = 'U'
 DOC = ('handle_replace_conflicts (executor insert/replace.rs), the conflict detection of REPLACE INTO: the head of the function builds one match entry PER '
        'CONSTRAINT, at the constraint\'s own position (the projected new values, or None when they hold a NULL), and the `conflicts` closure handed to '
-       'delete_where answers TRUE for exactly the stored rows that collide with the new row on the PRIMARY KEY or on a NULL-free UNIQUE key - so every '
+       'delete_where answers TRUE for exactly the stored rows that collide with the new row on the PRIMARY KEY or on a NULL-free UNIQUE key (declared UNIQUE constraints and user-defined UNIQUE indexes alike) - so every '
        'row that would make the inserted row a duplicate is removed, and no other row is.')
 
 TEMPLATE = r'''
@@ -59,6 +59,18 @@ impl TableSchema {
     }
 }
 
+#[verifier::external_body] pub struct Database { d: u8 }
+/// column positions of the user-defined UNIQUE indexes of the table (insert/constraints.rs unique_index_columns; prefix indexes excepted)
+pub uninterp spec fn ix_cols(db: &Database, table_name: &str) -> Seq<Seq<usize>>;
+#[verifier::external_body]
+fn unique_index_columns(db: &Database, schema: &TableSchema, table_name: &str) -> (r: Vec<Vec<usize>>)
+    ensures r@.len() == ix_cols(db, table_name).len(), forall|c: int| 0 <= c < r@.len() ==> (#[trigger] r@[c])@ == ix_cols(db, table_name)[c] { unimplemented!() }
+// Vec::extend
+#[verifier::external_body]
+fn vv_extend(a: &mut Vec<Vec<usize>>, b: Vec<Vec<usize>>) ensures final(a)@ == old(a)@ + b@ { unimplemented!() }
+/// every key REPLACE has to respect: the declared UNIQUE constraints followed by the user-defined UNIQUE indexes
+pub open spec fn all_uqs(schema: &TableSchema, db: &Database, table_name: &str) -> Seq<Seq<usize>> { schema.uqs() + ix_cols(db, table_name) }
+
 /// SQL: a stored row makes the new row a duplicate iff they agree on the PRIMARY KEY or on a UNIQUE key that holds no NULL
 pub open spec fn collides(row_vals: Seq<SqlValue>, new_vals: Seq<SqlValue>, pk: Option<Seq<usize>>, uqs: Seq<Seq<usize>>) -> bool {
     ||| (pk matches Some(p) && proj(row_vals, p) == proj(new_vals, p))
@@ -78,10 +90,10 @@ pub open spec fn matches_ok(pk_match: Option<Vec<SqlValue>>, unique_matches: Seq
 
 //@@ conflicts
 
-fn canary_build(schema: &TableSchema, row_values: &[SqlValue])
-    requires schema.cols_ok(row_values@.len() as int),
+fn canary_build(db: &Database, t: &str, schema: &TableSchema, row_values: &[SqlValue])
+    requires schema.cols_ok(row_values@.len() as int), forall|c: int| 0 <= c < ix_cols(db, t).len() ==> idx_ok(#[trigger] ix_cols(db, t)[c], row_values@.len() as int),
 {
-    let r = build_matches(schema, row_values);
+    let r = build_matches(db, t, schema, row_values);
     assert(false); // CANARY
 }
 
@@ -104,25 +116,26 @@ ITEMS = {
     'build_matches': dict(
         file=_F, path='fn handle_replace_conflicts', ret='r',
         fragment=dict(kind='prefix', index=0, until=r'\n\s*// Delete conflicting rows using delete_where',
-                      sig='fn build_matches(schema: &TableSchema, row_values: &[SqlValue]) -> (Option<Vec<SqlValue>>, Vec<Option<Vec<SqlValue>>>)',
+                      sig='fn build_matches(db: &Database, table_name: &str, schema: &TableSchema, row_values: &[SqlValue]) -> (Option<Vec<SqlValue>>, Vec<Option<Vec<SqlValue>>>)',
                       tail='(pk_match, unique_matches)'),
         rewrites=_RW + [
             ('re', r'for unique_indices in unique_constraint_indices\.iter\(\) \{', 'let mut ui__: usize = 0; while ui__ < unique_constraint_indices.len() { let unique_indices = &unique_constraint_indices[ui__]; ui__ = ui__ + 1;', 1),
-            ('re', r'unique_values\.contains\(&SqlValue::Null\)', 'contains_null(&unique_values)', 1)],
+            ('re', r'unique_values\.contains\(&SqlValue::Null\)', 'contains_null(&unique_values)', 1),
+            ('re', r'unique_constraint_indices\.extend\(super::constraints::unique_index_columns\(db, schema, table_name\)\);', 'vv_extend(&mut unique_constraint_indices, unique_index_columns(db, schema, table_name));', None)],
         loops={0: '''
         invariant
             ui__ <= unique_constraint_indices@.len(), unique_matches@.len() == ui__,
-            unique_constraint_indices@.len() == schema.uqs().len(),
-            forall|c: int| 0 <= c < unique_constraint_indices@.len() ==> (#[trigger] unique_constraint_indices@[c])@ == schema.uqs()[c],
-            schema.cols_ok(row_values@.len() as int),
+            unique_constraint_indices@.len() == all_uqs(schema, db, table_name).len(),
+            forall|c: int| 0 <= c < unique_constraint_indices@.len() ==> (#[trigger] unique_constraint_indices@[c])@ == all_uqs(schema, db, table_name)[c],
+            schema.cols_ok(row_values@.len() as int) && (forall|c: int| 0 <= c < ix_cols(db, table_name).len() ==> idx_ok(#[trigger] ix_cols(db, table_name)[c], row_values@.len() as int)),
             forall|c: int| 0 <= c < ui__ ==> (
-                if has_null(proj(row_values@, schema.uqs()[c])) { (#[trigger] unique_matches@[c]) is None }
-                else { unique_matches@[c] is Some && unique_matches@[c]->Some_0@ == proj(row_values@, schema.uqs()[c]) }),
+                if has_null(proj(row_values@, all_uqs(schema, db, table_name)[c])) { (#[trigger] unique_matches@[c]) is None }
+                else { unique_matches@[c] is Some && unique_matches@[c]->Some_0@ == proj(row_values@, all_uqs(schema, db, table_name)[c]) }),
         decreases unique_constraint_indices@.len() - ui__,
 '''},
         contract='''
-    requires schema.cols_ok(row_values@.len() as int),
-    ensures matches_ok(r.0, r.1@, row_values@, schema.pk(), schema.uqs()),
+    requires schema.cols_ok(row_values@.len() as int) && (forall|c: int| 0 <= c < ix_cols(db, table_name).len() ==> idx_ok(#[trigger] ix_cols(db, table_name)[c], row_values@.len() as int)),
+    ensures matches_ok(r.0, r.1@, row_values@, schema.pk(), all_uqs(schema, db, table_name)),
 '''),
     'conflicts': dict(
         file=_F, path='fn handle_replace_conflicts', ret='r',
@@ -166,7 +179,7 @@ CANARIES = ['canary_build']
 TRUSTED = [
     'R6: the head of handle_replace_conflicts (the statements before "// Delete conflicting rows", fragment kind prefix, returning the two locals it builds) and the `conflicts` closure (closure #3, its captured variables as parameters; new_vals / pk / uqs are ghost parameters naming what the captured values stand for) are lifted; NOT under contract: get_table_mut, delete_where(|row| conflicts(row) ..) (Table::delete_where itself: unit K-table), recording the deletions',
     'external_body project (iter().map(|&idx| vals[idx].clone()).collect(): REQUIRES the indices in bounds), contains_null (Vec::contains(&Null)), vec_eq (Vec == Vec), opt_at (get(i).and_then(|v| v.as_ref())), SqlValue::clone; SqlValue = Null | V(opaque), equality structural (SqlValue::eq: unit T-laws)',
-    'external_body TableSchema::get_primary_key_indices / get_unique_constraint_indices: uninterpreted pk() / uqs(); precondition cols_ok (every constraint column is a column of the row) from the catalog',
+    'external_body TableSchema::get_primary_key_indices / get_unique_constraint_indices: uninterpreted pk() / uqs(); unique_index_columns (the column sets of the user-defined UNIQUE indexes: uninterpreted ix_cols - fix c1df84f2 made REPLACE respect them too), vv_extend (Vec::extend), Database opaque; precondition cols_ok (every constraint column is a column of the row) from the catalog',
     'R10 rewrites of the two `for` loops (iter() / iter().enumerate()) into index loops',
     'that REPLACE then inserts the new row through the ordinary INSERT path (constraints re-checked there: units K-pk, K-rowval) is outside this unit',
 ]
